@@ -195,6 +195,7 @@ def main():
     ap.add_argument('--replay')
     ap.add_argument('--all', action='store_true')
     ap.add_argument('--only')
+    ap.add_argument('--no-evidence', action='store_true', help='do not write evidence/ or replays/ (used when evaluating scratch variants)')
     a = ap.parse_args()
     try:
         if a.replay:
@@ -210,7 +211,7 @@ def main():
             sys.exit(worst)
         if not a.prop:
             ap.error('property id required')
-        code, _ = check(a.prop, a.tier if a.tier in ('quick', 'thorough') else 'quick', only=set(a.only.split(',')) if a.only else None)
+        code, _ = check(a.prop, a.tier if a.tier in ('quick', 'thorough') else 'quick', only=set(a.only.split(',')) if a.only else None, write=not a.no_evidence)
         sys.exit(code)
     except SystemExit:
         raise
